@@ -116,6 +116,31 @@ func init() {
 				o.count("ctor:evaluate-ranking")
 			default: // whole responses, all methods, bias sequences
 				q := genRequest(r, ReqOpts{MaxBiases: 3})
+				if r.chance(0.25) {
+					// the case that needs three things at once: a heuristic with a current choice OUTSIDE choseToMake
+					// and a bias that makes the listener rebuild the method parameters (criteria removed / added)
+					q = genRequest(r, ReqOpts{MaxBiases: 2, Methods: []string{"majorityHeuristic", "satisfactionHeuristic"}, Prob: ProbOpts{MinCrit: 2}})
+					if len(q.Problem.Known) >= 2 {
+						if len(q.Problem.Chosen) == len(q.Problem.Known) {
+							q.Problem.Chosen = q.Problem.Chosen[:len(q.Problem.Chosen)-1]
+							q.Body["choseToMake"] = append([]string{}, q.Problem.Chosen...)
+						}
+						for _, a := range q.Problem.Known {
+							if !heurContains(q.Problem.Chosen, a.Id) {
+								q.Body["methodParameters"].(J)["currentChoice"] = a.Id
+							}
+						}
+						name := []string{"criteriaOmission", "criteriaOmission", "criteriaConcealment", "criteriaMixing"}[r.Intn(4)]
+						pr := biasPropsJSON(r, name, q.Problem)
+						if name == "criteriaOmission" {
+							pr["ratio"], pr["max"] = 0.5, len(q.Problem.Criteria)-1
+							delete(pr, "min")
+						}
+						bl, _ := q.Body["biases"].([]interface{})
+						q.Body["biases"] = append([]interface{}{J{"name": name, "props": pr}}, bl...)
+						o.count("e2e-current-choice-outside+listener-rebuild")
+					}
+				}
 				st, _ := decideJSON(q.JSON())
 				o.count("e2e:" + q.Method)
 				if st != 200 {
